@@ -104,6 +104,11 @@ int main(int argc, char** argv) {
     vrng_seed(&R, seed * 2654435761ULL + (uint64_t)mode[0]); (void)carquet_init(); char tag[128];
     if (!strcmp(mode, "gen")) { int64_t cases = scale >= 3 ? 2500 : scale >= 2 ? 1200 : 150; tgen_t gp = {8, 400, scale >= 2, -1, -1, -1, 0, 0};
         for (int64_t ci = 0; ci < cases; ci++) { table_t* t = tbl_generate(&R, &gp); snprintf(tag, sizeof tag, "gen seed=%llu case=%lld", (unsigned long long)seed, (long long)ci); run_case(t, dir, ci, tag); tbl_free(t); }
+        /* shape sweep: column counts and row-group counts around the places where footer lists change representation (15 elements:
+         * short vs long list header; 64/128: capacity doublings), with few rows so that the sweep stays cheap */
+        { static const int NC[] = {9, 10, 11, 12, 13, 14, 15, 16, 17, 18, 31, 32, 33, 63, 64, 65, 127, 128, 129}; static const int NG[] = {5, 6, 7, 8, 13, 14, 15, 16, 17, 31, 32, 33};
+          for (int q = 0; q < (int)(sizeof NC / sizeof *NC) + (int)(sizeof NG / sizeof *NG); q++) { int wide = q < (int)(sizeof NC / sizeof *NC); tgen_t g2 = {8, 12, 0, -1, -1, -1, 0, wide ? 1 + (int)vrng_below(&R, 2) : NG[q - (int)(sizeof NC / sizeof *NC)], wide ? NC[q] : 1 + (int)vrng_below(&R, 3)};
+              table_t* t = tbl_generate(&R, &g2); snprintf(tag, sizeof tag, "shape seed=%llu cols=%d row_groups=%d", (unsigned long long)seed, t->ncols, t->nrg); run_case(t, dir, 100000 + q, tag); v_count(wide ? "shape_sweep_wide_tables" : "shape_sweep_many_row_groups"); tbl_free(t); } }
         v_sample("gen: %lld random tables: 1..8 columns over 7 physical types x REQUIRED/OPTIONAL, 1..4 row groups, rows 0..400 (some up to 60000), 5 codecs, page_size {1,64,1024,65536,default}, batch partitions {single,1-row,small,random incl. 0-row,halving}, interleaved columns", (long long)cases);
     } else if (!strcmp(mode, "enum")) {
         /* all (null pattern x batch partition) pairs for one OPTIONAL column of n rows; all batch partitions for a boolean column */
